@@ -113,9 +113,7 @@ theorem geLex_total (xs ys : List Nat) : geLex xs ys = true ∨ geLex ys xs = tr
           exact ih bs
 
 /-- transitive on component lists of equal length (the Go code pads both operands to the same
-    length before comparing).  PARTIAL: transitivity across three strings with different numbers of
-    components additionally needs that zero-padding commutes with the comparison; that lemma is not
-    proved here, the three-string case is covered by the differential slice only. -/
+    length before comparing); lifted to strings with any numbers of components by `C30_version_trans` -/
 theorem C30_geLex_trans_partial (xs ys zs : List Nat) (h1 : xs.length = ys.length) (h2 : ys.length = zs.length)
     (hxy : geLex xs ys = true) (hyz : geLex ys zs = true) : geLex xs zs = true := by
   induction xs generalizing ys zs with
@@ -155,5 +153,198 @@ example : compareVersions "v0.1" "v0.1.2" = some false := by decide
 example : compareVersions "v22.11rc1" "22.11.1" = some true := by decide
 example : feeFloor "/Satoshi:29.2.0/" = 25 := by decide
 example : feeFloor "/Satoshi:29.1.99/" = 253 := by decide
+
+/-! ### the order on version STRINGS (any numbers of components; missing components count as zero) -/
+
+def vals (p : List (List Char)) : Option (List Nat) := p.mapM atoi
+def padNat (n : Nat) (xs : List Nat) : List Nat := xs ++ List.replicate (n - xs.length) 0
+
+theorem atoi_zero : atoi ['0'] = some 0 := by decide
+
+theorem vals_cons (a : List Char) (as : List (List Char)) :
+    vals (a :: as) = (atoi a).bind fun x => (vals as).map fun xs => x :: xs := by
+  unfold vals
+  simp only [List.mapM_cons]
+  cases atoi a <;> simp [Option.bind, Option.map]
+  cases List.mapM atoi as <;> rfl
+
+theorem convertBoth_iff (p q : List (List Char)) (hl : p.length = q.length) (xs ys : List Nat) :
+    convertBoth p q = some (xs, ys) ↔ vals p = some xs ∧ vals q = some ys := by
+  induction p generalizing q xs ys with
+  | nil =>
+    cases q with
+    | nil => simp [convertBoth, vals]
+    | cons b bs => simp at hl
+  | cons a as ih =>
+    cases q with
+    | nil => simp at hl
+    | cons b bs =>
+      simp only [List.length_cons, Nat.add_right_cancel_iff] at hl
+      rw [vals_cons, vals_cons]
+      simp only [convertBoth]
+      cases ha : atoi a with
+      | none => simp
+      | some x =>
+        cases hb : atoi b with
+        | none => simp
+        | some y =>
+          simp only [Option.bind_some]
+          cases hc : convertBoth as bs with
+          | none =>
+            simp only [Option.map_none]
+            constructor
+            · intro h; cases h
+            · intro ⟨h1, h2⟩
+              cases hva : vals as with
+              | none => simp [hva] at h1
+              | some xs' =>
+                cases hvb : vals bs with
+                | none => simp [hvb] at h2
+                | some ys' =>
+                  have := (ih bs hl xs' ys').mpr ⟨hva, hvb⟩
+                  rw [hc] at this; cases this
+          | some pr =>
+            obtain ⟨xs', ys'⟩ := pr
+            have := (ih bs hl xs' ys').mp hc
+            simp only [Option.map_some, this.1, this.2]
+            constructor
+            · intro h; injection h with h; injection h with h1 h2; exact ⟨by rw [h1], by rw [h2]⟩
+            · intro ⟨h1, h2⟩; injection h1 with h1; injection h2 with h2; rw [h1, h2]
+
+theorem vals_append (p q : List (List Char)) :
+    vals (p ++ q) = (vals p).bind fun xs => (vals q).map fun ys => xs ++ ys := by
+  induction p with
+  | nil => simp [vals]
+  | cons a as ih =>
+    rw [List.cons_append, vals_cons, vals_cons, ih]
+    cases atoi a with
+    | none => rfl
+    | some x =>
+      simp only [Option.bind_some]
+      cases vals as with
+      | none => rfl
+      | some xs => simp only [Option.bind_some, Option.map_some]; cases vals q <;> rfl
+
+theorem vals_zeros (k : Nat) : vals (List.replicate k ['0']) = some (List.replicate k 0) := by
+  induction k with
+  | zero => rfl
+  | succ k ih => rw [List.replicate_succ, vals_cons, atoi_zero, ih]; rfl
+
+theorem vals_length (p : List (List Char)) (xs : List Nat) (h : vals p = some xs) : xs.length = p.length := by
+  induction p generalizing xs with
+  | nil => simp [vals] at h; rw [h]; rfl
+  | cons a as ih =>
+    rw [vals_cons] at h
+    cases ha : atoi a with
+    | none => simp [ha] at h
+    | some x =>
+      cases hv : vals as with
+      | none => simp [ha, hv] at h
+      | some xs' =>
+        simp [ha, hv] at h
+        rw [← h]; simp [ih xs' hv]
+
+theorem vals_padTo (n : Nat) (p : List (List Char)) (xs : List Nat) (h : vals p = some xs) :
+    vals (padTo n p) = some (padNat n xs) := by
+  unfold padTo padNat
+  rw [vals_append, h, vals_zeros, vals_length p xs h]
+  rfl
+
+theorem vals_of_padTo (n : Nat) (p : List (List Char)) (zs : List Nat) (h : vals (padTo n p) = some zs) :
+    ∃ xs, vals p = some xs := by
+  unfold padTo at h
+  rw [vals_append] at h
+  cases hv : vals p with
+  | none => simp [hv] at h
+  | some xs => exact ⟨xs, rfl⟩
+
+/-- `CompareVersionStrings` in terms of the numeric components -/
+theorem compareVersions_iff (a b : String) (r : Bool) :
+    compareVersions a b = some r ↔
+      ∃ xs ys, vals (digitRuns a.toList) = some xs ∧ vals (digitRuns b.toList) = some ys ∧
+        r = geLex (padNat (max xs.length ys.length) xs) (padNat (max xs.length ys.length) ys) := by
+  unfold compareVersions
+  simp only [Option.map_eq_some_iff]
+  have hlen : (padTo (max (digitRuns a.toList).length (digitRuns b.toList).length) (digitRuns a.toList)).length
+      = (padTo (max (digitRuns a.toList).length (digitRuns b.toList).length) (digitRuns b.toList)).length := by
+    unfold padTo; simp only [List.length_append, List.length_replicate]; omega
+  constructor
+  · intro ⟨⟨xs, ys⟩, hc, hr⟩
+    have h := (convertBoth_iff _ _ hlen xs ys).mp hc
+    obtain ⟨xa, hxa⟩ := vals_of_padTo _ _ _ h.1
+    obtain ⟨xb, hxb⟩ := vals_of_padTo _ _ _ h.2
+    refine ⟨xa, xb, hxa, hxb, ?_⟩
+    have e1 := vals_padTo (max (digitRuns a.toList).length (digitRuns b.toList).length) _ _ hxa
+    have e2 := vals_padTo (max (digitRuns a.toList).length (digitRuns b.toList).length) _ _ hxb
+    rw [h.1] at e1; rw [h.2] at e2
+    injection e1 with e1; injection e2 with e2
+    rw [vals_length _ _ hxa, vals_length _ _ hxb, ← e1, ← e2]
+    exact hr.symm
+  · intro ⟨xs, ys, hxa, hxb, hr⟩
+    refine ⟨(padNat (max xs.length ys.length) xs, padNat (max xs.length ys.length) ys), ?_, hr.symm⟩
+    rw [convertBoth_iff _ _ hlen]
+    rw [vals_length _ _ hxa, vals_length _ _ hxb]
+    exact ⟨vals_padTo _ _ _ hxa, vals_padTo _ _ _ hxb⟩
+
+theorem geLex_append_zeros (xs ys : List Nat) (k : Nat) (h : xs.length = ys.length) :
+    geLex (xs ++ List.replicate k 0) (ys ++ List.replicate k 0) = geLex xs ys := by
+  induction xs generalizing ys with
+  | nil =>
+    cases ys with
+    | nil => simp only [List.nil_append]; rw [geLex_refl]; rfl
+    | cons b bs => simp at h
+  | cons a as ih =>
+    cases ys with
+    | nil => simp at h
+    | cons b bs =>
+      simp only [List.length_cons, Nat.add_right_cancel_iff] at h
+      simp only [List.cons_append, geLex, ih bs h]
+
+theorem padNat_more (n N : Nat) (xs : List Nat) (h1 : xs.length ≤ n) (h2 : n ≤ N) :
+    padNat N xs = padNat n xs ++ List.replicate (N - n) 0 := by
+  unfold padNat
+  rw [List.append_assoc, List.replicate_append_replicate]
+  congr 2; omega
+
+theorem padNat_length (n : Nat) (xs : List Nat) (h : xs.length ≤ n) : (padNat n xs).length = n := by
+  unfold padNat; simp; omega
+
+/-- comparing after padding to ANY common length gives the comparison the code makes -/
+theorem geLex_pad_any (xs ys : List Nat) (N : Nat) (h : max xs.length ys.length ≤ N) :
+    geLex (padNat N xs) (padNat N ys) = geLex (padNat (max xs.length ys.length) xs) (padNat (max xs.length ys.length) ys) := by
+  rw [padNat_more (max xs.length ys.length) N xs (by omega) h, padNat_more (max xs.length ys.length) N ys (by omega) h]
+  apply geLex_append_zeros
+  rw [padNat_length _ _ (by omega), padNat_length _ _ (by omega)]
+
+/-- **transitive** on version strings with ANY numbers of components: a ≥ b and b ≥ c give a ≥ c (and the
+    third comparison does not fail) -/
+theorem C30_version_trans (a b c : String) (hab : compareVersions a b = some true) (hbc : compareVersions b c = some true) :
+    compareVersions a c = some true := by
+  obtain ⟨xs, ys, hxa, hyb, h1⟩ := (compareVersions_iff a b true).mp hab
+  obtain ⟨ys', zs, hyb', hzc, h2⟩ := (compareVersions_iff b c true).mp hbc
+  rw [hyb] at hyb'; injection hyb' with e; subst e
+  rw [compareVersions_iff]
+  refine ⟨xs, zs, hxa, hzc, ?_⟩
+  let N := max xs.length (max ys.length zs.length)
+  rw [← geLex_pad_any xs ys N (by omega)] at h1
+  rw [← geLex_pad_any ys zs N (by omega)] at h2
+  rw [← geLex_pad_any xs zs N (by omega)]
+  exact (C30_geLex_trans_partial _ _ _ (by rw [padNat_length _ _ (by omega), padNat_length _ _ (by omega)])
+    (by rw [padNat_length _ _ (by omega), padNat_length _ _ (by omega)]) h1.symm h2.symm).symm
+
+/-- **total** on version strings: whenever both comparisons are defined, one of them holds -/
+theorem C30_version_total (a b : String) (r1 r2 : Bool) (h1 : compareVersions a b = some r1) (h2 : compareVersions b a = some r2) :
+    r1 = true ∨ r2 = true := by
+  obtain ⟨xs, ys, hxa, hyb, e1⟩ := (compareVersions_iff a b r1).mp h1
+  obtain ⟨ys', xs', hyb', hxa', e2⟩ := (compareVersions_iff b a r2).mp h2
+  rw [hyb] at hyb'; injection hyb' with e; subst e
+  rw [hxa] at hxa'; injection hxa' with e; subst e
+  rw [e1, e2, Nat.max_comm ys.length xs.length]
+  exact geLex_total _ _
+
+/-- non-vacuity: comparisons across different numbers of components -/
+example : compareVersions "v24.11" "24.2.1" = some true ∧ compareVersions "24.2.1" "v24.2" = some true
+    ∧ compareVersions "v24.11" "v24.2" = some true ∧ compareVersions "24" "24.0.0" = some true
+    ∧ compareVersions "24.0.0" "24" = some true ∧ compareVersions "24" "24.0.1" = some false := by decide
 
 end PsVerif.Props.C30
